@@ -1,6 +1,5 @@
 import Gomjml.Props.C02
-#print axioms Gomjml.Props.C02.C02_partial
-#print axioms Gomjml.Layout.C02_C03_tame
-#print axioms Gomjml.Layout.wf_spec
-#print axioms Gomjml.Props.C02.C02_all_bodies
 #print axioms Gomjml.Props.C02.C02_full
+#print axioms Gomjml.Props.C02.C02_combined
+#print axioms Gomjml.Layout.C02_C03_all
+#print axioms Gomjml.Layout.wf_spec
